@@ -99,6 +99,9 @@ _STEPS += [
 # ... and, last, the three clauses of the rule for the current row (the invariant bodies at i = pixel_index)
 _STEPS += [x.replace("[i, ", "[pixel_index, ").replace(", i, ", ", pixel_index, ").replace("18(i)", "18(pixel_index)") for x in (_INS_L, _OUT_L, _BND_L)]
 
+# ... and the rows before the current one keep theirs (they are not written)
+_STEPS += ["forall(0, pixel_index, lambda i: " + x + ", pat=" + mk + "(i))" for x, mk in ((_INS_L, "ins18"), (_OUT_L, "out18"), (_BND_L, "bnd18"))]
+
 contract(
     _RELOC, props=["C18"],
     types={"grid": "real[2]", "border_grid": "real[2]"}, returns="real[2]",
@@ -135,6 +138,48 @@ contract(
         "result.shape[0] == N": "the number and order of coordinates are preserved",
     },
 )
+
+
+# ----------------------------------------------------------------------------- farthest sub-pixel of a border pixel
+# squared distance of the t-th listed grid point from `coordinate` = (c0, c1) (farthest is the same for distance and its square)
+macro("dc18", ["G", "S", "t", "c0", "c1"], "(G[S[t], 1] - c1) ** 2 + (G[S[t], 0] - c0) ** 2",
+      py=lambda G, S, t, c0, c1: float((G[int(S[t]), 1] - c1) ** 2 + (G[int(S[t]), 0] - c0) ** 2))
+_D = "dc18(grid_2d_slim, slim_indexes, {t}, coordinate[0], coordinate[1])"
+_FAR = ("{r} == slim_indexes[t] and forall(0, {n}, lambda u: " + _D.format(t="u") + " <= " + _D.format(t="t") + ")"
+        " and forall(t + 1, {n}, lambda u: " + _D.format(t="u") + " < " + _D.format(t="t") + ")")
+contract(
+    G2 + "furthest_grid_2d_slim_index_from", props=["C18"],
+    types={"grid_2d_slim": "real[2]", "slim_indexes": "int[1]", "coordinate": "(real,real)"}, returns="int",
+    let={"n": "slim_indexes.shape[0]", "P": "grid_2d_slim.shape[0]"},
+    # the list is non-empty (every pixel has sub_size ** 2 >= 1 sub-pixels; with an empty list the function fails with
+    # UnboundLocalError) and lists rows of the grid
+    requires=["grid_2d_slim.shape[1] == 2", "n >= 1", "forall(0, n, lambda t: 0 <= slim_indexes[t] and slim_indexes[t] < P)"],
+    ensures=[
+        # the result is a listed index whose point is farthest from the coordinate (the LAST such index on exact ties)
+        "exists(0, n, lambda t: " + _FAR.format(r="result", n="n") + ")"],
+    loops={0: {"types": {"furthest_grid_2d_slim_index": "int"},
+               "inv": ["distance_to_centre >= 0",
+                       "implies(pos_L0 == 0, distance_to_centre == 0)",
+                       "implies(pos_L0 >= 1, exists(0, pos_L0, lambda t: distance_to_centre == " + _D.format(t="t") + " and "
+                       + _FAR.format(r="furthest_grid_2d_slim_index", n="pos_L0") + "))"],
+               "assert_at": {3: ["distance_to_centre_new == " + _D.format(t="pos_L0"), "distance_to_centre_new >= 0"]}}},
+    sentence={"exists": "the selected sub-pixel is the one (of the listed sub-pixels of that pixel) that is farthest from the given centre"},
+)
+
+# centre of the bounding box of a set of points
+contract(
+    G2 + "grid_2d_centre_from", props=["C18"],
+    types={"grid_2d_slim": "real[2]"}, returns="(real,real)",
+    let={"P": "grid_2d_slim.shape[0]", "G": "grid_2d_slim"},
+    requires=["grid_2d_slim.shape[1] == 2", "P >= 1"],
+    ensures=[
+        "exists(0, P, lambda a: exists(0, P, lambda b: result[0] == (G[a, 0] + G[b, 0]) / 2"
+        " and forall(0, P, lambda j: G[b, 0] <= G[j, 0] and G[j, 0] <= G[a, 0])))",
+        "exists(0, P, lambda a: exists(0, P, lambda b: result[1] == (G[a, 1] + G[b, 1]) / 2"
+        " and forall(0, P, lambda j: G[b, 1] <= G[j, 1] and G[j, 1] <= G[a, 1])))"],
+    sentence={"exists": "the centre is the centre of the bounding box of the points: midpoint of the extreme coordinates on each axis"},
+)
+_ext.NO_ARRAY_EXT.add(G2 + "grid_2d_centre_from")
 
 
 # ----------------------------------------------------------------------------- engine C generators
@@ -196,3 +241,26 @@ def _reloc_nontrivial(grid, border_grid):
 
 CONTRACTS[_RELOC].gen = _g_reloc
 CONTRACTS[_RELOC].nontrivial = _reloc_nontrivial
+
+
+def _g_furthest(rng, tier):
+    for _ in range(gens.budget(tier, 300, 4000)):
+        P = rng.randint(1, 9)
+        g = gens.reals(rng, (P, 2), -3, 3, special=False)
+        if rng.random() < 0.4:                                    # exact ties: symmetric points / duplicates
+            g = np.round(g)
+        n = rng.randint(1, 6)
+        yield {"grid_2d_slim": g, "slim_indexes": np.array([rng.randrange(P) for _ in range(n)], dtype=int),
+               "coordinate": (rng.choice([0.0, 0.5, rng.uniform(-2, 2)]), rng.choice([0.0, -0.5, rng.uniform(-2, 2)]))}
+
+
+def _g_centre(rng, tier):
+    for _ in range(gens.budget(tier, 300, 4000)):
+        P = rng.randint(1, 8)
+        g = gens.reals(rng, (P, 2), -5, 5, special=False)
+        yield {"grid_2d_slim": np.round(g) if rng.random() < 0.3 else g}
+
+
+CONTRACTS[G2 + "furthest_grid_2d_slim_index_from"].gen = _g_furthest
+CONTRACTS[G2 + "furthest_grid_2d_slim_index_from"].nontrivial = lambda slim_indexes, **kw: len(set(slim_indexes.tolist())) >= 2
+CONTRACTS[G2 + "grid_2d_centre_from"].gen = _g_centre
